@@ -178,10 +178,16 @@ fn op_zstr(toks: &[Tok], prop: &str) -> Outcome {
     Outcome { result: w.0, oracle }
 }
 
-fn op_ti(toks: &[Tok], _prop: &str) -> Outcome {
+fn op_ti(toks: &[Tok], prop: &str) -> Outcome {
     let mut r = R::new(toks);
     let word = r.n() as u32;
     let mut w = W::new();
+    let mut oracle = vec![];
+    if prop == "C14" {
+        if let Some((c, d)) = crate::sweep::ti_oracle(word) {
+            oracle.push((c.to_string(), d));
+        }
+    }
     match guarded(|| TypeInfo::try_from(word).ok().map(|t| {
         let le = t.as_bytes::<LittleEndian>();
         let be = t.as_bytes::<BigEndian>();
@@ -197,13 +203,14 @@ fn op_ti(toks: &[Tok], _prop: &str) -> Outcome {
             w.b(&be);
         }
     }
-    Outcome { result: w.0, oracle: vec![] }
+    Outcome { result: w.0, oracle }
 }
 
-fn op_msin(toks: &[Tok], _prop: &str) -> Outcome {
+fn op_msin(toks: &[Tok], prop: &str) -> Outcome {
     let mut r = R::new(toks);
     let b = r.n() as u8;
     let mut w = W::new();
+    let mut oracle = vec![];
     match guarded(|| {
         let t = MessageType::try_from(b).ok();
         t.map(|t| {
@@ -212,15 +219,34 @@ fn op_msin(toks: &[Tok], _prop: &str) -> Outcome {
             (t, verbose, enc)
         })
     }) {
-        None => w.n(4),
-        Some(None) => w.n(5),
+        None => w.n(0xdead),
+        Some(None) => w.n(0xdeae),
         Some(Some((t, verbose, enc))) => {
             w.mtype(&t);
             w.bool(verbose);
             w.n(enc as u128);
+            if prop == "C14" {
+                if enc != b {
+                    oracle.push(("msin_roundtrip".into(), format!("{:#x} decodes to {:?} which encodes to {:#x}", b, t, enc)));
+                }
+                // the sub-type the layout prescribes: MSTP bits 1-3, MTIN bits 4-7
+                let mstp = (b >> 1) & 7;
+                let mtin = b >> 4;
+                let class_ok = match (&t, mstp) {
+                    (MessageType::Log(_), 0) | (MessageType::ApplicationTrace(_), 1) | (MessageType::NetworkTrace(_), 2) | (MessageType::Control(_), 3) => true,
+                    (MessageType::Unknown((a, c)), m) => *a == m && m >= 4 && *c == mtin,
+                    _ => false,
+                };
+                if !class_ok {
+                    oracle.push(("msin_layout".into(), format!("{:#x} (MSTP {} MTIN {}) decoded as {:?}", b, mstp, mtin, t)));
+                }
+            }
         }
     }
-    Outcome { result: w.0, oracle: vec![] }
+    if prop == "C14" && w.0.first() == Some(&Tok::N(0xdead)) {
+        oracle.push(("no_panic".into(), "MessageType conversion panicked".into()));
+    }
+    Outcome { result: w.0, oracle }
 }
 
 pub fn run_parse(sh: bool, f: &Option<dlt_core::filtering::DltFilterConfig>, bs: &[u8]) -> Option<Vec<Tok>> {
